@@ -254,8 +254,13 @@ fn gen_case(seed: u64, tier: Tier) -> Case {
 			parts.push(c);
 			left -= c;
 			if mode == 0 && parts.len() > 600 {
-				parts.push(left);
-				left = 0;
+				// (the rest in large pieces - still within what a streaming sound's ring can feed
+				// during one callback, which the decoder task cannot interrupt here)
+				while left > 0 {
+					let c = left.min(if any_streaming { 4000 } else { usize::MAX });
+					parts.push(c);
+					left -= c;
+				}
 			}
 		}
 		worlds.push((ibs, parts));
